@@ -98,3 +98,8 @@ Theorem C05_go_kvSize :
 Proof. exact kvSize_ok. Qed.
 Print Assumptions C05_go_kvSize.
 
+Theorem C05_go_count_rec : forall (isdel : bool) (puts dels : N), (puts < 2 ^ 32)%N -> (dels < 2 ^ 32)%N ->
+  go_count_rec (if isdel then 1 else 0) (Z.of_N puts) (Z.of_N dels)
+  = (Z.of_N (if isdel then puts else u32 (puts + 1)), Z.of_N (if isdel then u32 (dels + 1) else dels)).
+Proof. exact count_rec_ok. Qed.
+Print Assumptions C05_go_count_rec.
